@@ -169,8 +169,9 @@ CHECKS = {
              'pass that does not stop adds a stored string the working examples lacked: C03_loop_terminates) and when it ends '
              'every string the last check found unmatched is a working example (C03_last_failures_are_working_examples). (4) At the '
              'level of the TEXT: Rexpy/Regex.v models the regular-expression syntax rexpy writes (parser to quantified character '
-             'sets, matcher); for renderable patterns without extra letters the rendered text - escaped or not, padded, with '
-             'capture groups - parses and the model\'s reading accepts every string the pattern matches fragment by fragment '
+             'sets incl. the (a|b) alternations of extra letters, matcher proved sound and complete); for every set of extra '
+             'letters and every renderable pattern the rendered text - escaped or not, padded, with capture groups - parses '
+             'and the model\'s reading accepts every string the pattern matches fragment by fragment '
              '(C03_rendered_text_matches), so each working example is matched by one of the batch\'s expressions as text '
              '(C03_batch_text_covers); the model\'s reading is compared with CPython re on every evaluated (expression, string) '
              'pair. The extracted model replays every real run '
@@ -178,9 +179,9 @@ CHECKS = {
              'the same expressions and working examples; the oracle hypotheses of (1) are evaluated by the extracted model on '
              'every recorded split; character-level semantics, regex texts and classifications are swept against CPython re; '
              'the property itself is checked on every run.',
-        note='partial: the text theorem covers runs without extra letters (with them the category expressions are alternations '
-             'such as ([^\\W_]|[.-]), outside the modelled syntax: those runs rest on the fragment-level theorem, sweeps and '
-             'oracle); that CPython re reads the text as Regex.v does is validated by correspondence, not proved; '
+        note='partial: that CPython re reads the text as Regex.v does is validated by correspondence on every evaluated pair, '
+             'not proved; the text theorem is about the internal (perl) rendering that the loop checks - the portable/grep '
+             're-rendering is outside it (known finding on non-ASCII digits); '
              're.match, the group split and random.sample are oracle tables; pruning options and the portable/grep re-rendering '
              'are outside the loop theorem. Known finding: non-ASCII decimal digits under portable/grep.',
         technique='Coq proof (batch/refine coverage by invariants over the accumulators and (V)RLE widening; loop/check/clean '
@@ -191,15 +192,15 @@ CHECKS = {
         text='Theorems over the Extractor model: every returned expression is ^...$, there are never more expressions than '
              'stored distinct working examples, nothing is returned when clean keeps nothing, the fragments chosen do not '
              'depend on the tag option and a tagged fragment is the untagged one inside one capturing group; each refined pattern '
-             'matches one of the working examples fragment by fragment (C13_each_matches_some) and, for runs without extra '
-             'letters, as TEXT: every expression of a batch parses in the modelled syntax (Rexpy/Regex.v) and the model\'s '
+             'matches one of the working examples fragment by fragment (C13_each_matches_some) and as TEXT, for every set of '
+             'extra letters: every expression of a batch parses in the modelled syntax (Rexpy/Regex.v) and the model\'s '
              'reading of it accepts one of the working examples (C13_text_each_matches_some). The extracted '
              'model replays every real run (exact expressions); each returned expression is compiled, checked for anchoring, '
              'for matching an example, for duplicates and count; every run is repeated with tagging flipped and both '
              'results are compared on the examples and near-miss probes.',
         note='partial: "no expression twice" and the language equality of tagged and untagged expressions are decided by the '
              'run-time oracle and the replay, not by a theorem; that CPython re reads the text as Regex.v does is validated by '
-             'correspondence on every evaluated pair, not proved; runs with extra letters are outside the text theorem.',
+             'correspondence on every evaluated pair, not proved.',
         technique='Coq proof (shape/count/tagging/matches-an-example theorems over the Extractor and regex-text models) + extracted-model replay + regex-model correspondence with CPython re + expression oracle',
         design='7 C13'),
     'C14': dict(
